@@ -33,7 +33,7 @@ func init() {
 	register(&Prop{
 		ID:    "C08",
 		Level: "exploration",
-		Rule:  "case = grid point (family ∈ {plain, plain-filtered, ordered, ordered-ties, ordered-2keys, mget, aggregate (limit pushed into the aggregate node), aggregate-ordered (limit wrapped), aggregate-all (no GROUP BY), delete, delete-filtered, plain-sparse, ordered-sparse, delete-sparse (few matches among many scanned rows), alias-filtered (alias filtered on and projected)}, batch size B, unlimited result size R, offset s, count n, drain mode). Each case runs the statement without LIMIT and with `limit s, n` (or `limit n`) in the same mode on equal simulated stores and compares L with U[s:s+n] (ordered families: tie-aware). quick samples the grid by seed with forced inclusion of the coincidences (s a multiple/partial sum of child batch sizes, s = R, n = 0, s+n = R, s > R); thorough enumerates it completely for B ∈ {1,2,3,5,8} and the boundary values for B = 32. distinct_nontrivial counts distinct (family, mode, B, R, s, n) points with R > 0. One index in 7001 is a big case: result sizes 4097..70000 (1024..2100 for the key-list families), offsets and counts around 4096 and 65536, batch sizes to 70000; family delete-mget (literal key set with missing keys under a LIMIT) was added to the grid.",
+		Rule:  "case = grid point (family ∈ {plain, plain-filtered, ordered, ordered-ties, ordered-2keys, mget, aggregate (limit pushed into the aggregate node), aggregate-ordered (limit wrapped), aggregate-all (no GROUP BY), delete, delete-filtered, plain-sparse, ordered-sparse, delete-sparse (few matches among many scanned rows), alias-filtered (alias filtered on and projected)}, batch size B, unlimited result size R, offset s, count n, drain mode). Each case runs the statement without LIMIT and with `limit s, n` (or `limit n`) in the same mode on equal simulated stores and compares L with U[s:s+n] (ordered families: tie-aware). quick samples the grid by seed with forced inclusion of the coincidences (s a multiple/partial sum of child batch sizes, s = R, n = 0, s+n = R, s > R); thorough enumerates it completely for B ∈ {1,2,3,5,8} and the boundary values for B = 32. distinct_nontrivial counts distinct (family, mode, B, R, s, n) points with R > 0. One index in 1501 is a big case: result sizes 4097..70000 (1024..2100 for the key-list families), offsets and counts around 4096 and 65536, batch sizes to 70000; family delete-mget (literal key set with missing keys under a LIMIT) was added to the grid.",
 		Assumptions: []string{
 			"the unlimited result in the same drain mode is taken as the reference (row/batch agreement is C03's property)",
 			"ORDER BY columns are text/integer with uniform dynamic type, so content-equality and the comparator's tie notion coincide",
@@ -60,7 +60,7 @@ func init() {
 			if tier == "thorough" {
 				cov["grid_points"] = len(c08Grid())
 				cov["replicas_per_grid_point"] = c08Replicas
-				cov["grid"] = "B∈{1,2,3,5,8}: R∈[0,3B+1] × s∈[0,R+2] × n∈{0,1,2,B-1,B,B+1,R,R+1}; B=32: R,s thinned to multiples of B ±1 and the ends; × 17 families × 2 drain modes (one index in 7001 is a big case instead)"
+				cov["grid"] = "B∈{1,2,3,5,8}: R∈[0,3B+1] × s∈[0,R+2] × n∈{0,1,2,B-1,B,B+1,R,R+1}; B=32: R,s thinned to multiples of B ±1 and the ends; × 17 families × 2 drain modes (one index in 1501 is a big case instead)"
 			}
 			return ""
 		},
@@ -313,7 +313,7 @@ func c08Build(r *Rng, p gridPt) *Scenario {
 
 func genC08(seed uint64, i int, tier string) *Scenario {
 	r := NewRng(seed)
-	if i%7001 == 13 {
+	if i%1501 == 13 {
 		return genC08Big(r, i)
 	}
 	if tier == "thorough" {
